@@ -79,6 +79,8 @@ METHODS = {
     (None, "is_3overhang"): dict(coq="enz_is_3overhang", kind="pure"),
     (None, "catalyse"): dict(coq="enz_catalyse", kind="pure"),
     (None, "_get_regex"): dict(coq="ent_regex", kind="pure"),
+    (None, "__subclasses__"): dict(coq="pcl_subclasses", kind="pure"),
+    (None, "is_valid"): dict(coq="StructuredRecord_is_valid", kind="gen"),
     ("annotations", "get"): dict(coq="ann_get_%(key)s", kind="pure", constkey=True),
     (None, "overhang_start"): dict(coq="ent_overhang_start", kind="exc"),
     (None, "overhang_end"): dict(coq="ent_overhang_end", kind="exc"),
@@ -93,7 +95,10 @@ FUNCS = {
     "list": dict(coq="py_deepcopy", kind="pure"),
     "range": dict(coq="py_range", kind="pure"),
     "SeqMatch": dict(coq="mk_SeqMatch", kind="pure"),
-    "add_as_source": dict(coq="py_add_as_source", kind="pure"),
+    "add_as_source": dict(coq="add_as_source", kind="gen"),
+    "SeqFeature/3": dict(coq="mk_SeqFeature3", kind="pure", params=["location", "type", "qualifiers"]),
+    "FeatureLocation/2": dict(coq="mk_FeatureLocation2", kind="pure"),
+    "isabstract": dict(coq="pcl_isabstract", kind="pure"),
     "copy.deepcopy": dict(coq="py_deepcopy", kind="pure"),
     "SeqRecord": dict(coq="mk_SeqRecord", kind="pure"),
     "SeqRecord/1": dict(coq="mk_SeqRecord1", kind="pure"),
@@ -283,6 +288,14 @@ class Fn(object):
             return bs, "[" + "; ".join(atoms) + "]"
         if isinstance(e, ast.Dict) and not e.keys:
             return [], "[]"
+        if isinstance(e, ast.Dict) and all(isinstance(k, ast.Constant) and isinstance(k.value, str)
+                                           and k.value.isidentifier() for k in e.keys):
+            bs, atoms = [], []
+            for v in e.values:
+                b, a = self.expr(v)
+                bs += b
+                atoms.append(a)
+            return bs, "(py_dict_%s %s)" % ("_".join(k.value for k in e.keys), " ".join(atoms))
         if isinstance(e, ast.DictComp):
             return self.dictcomp(e)
         raise Unsupported("expression %s" % ast.dump(e)[:80])
@@ -371,7 +384,10 @@ class Fn(object):
             t = self.fresh()
             comp = " ".join([entry["coq"]] + fuel + pre_atoms + atoms)
             return binds + b + [("bind", t, comp)], t
-        b, atoms = self.args_of(call, kwnames=entry.get("kwargs"))
+        if entry.get("params"):
+            b, atoms = self.args_of(call, params=entry["params"], defaults=entry.get("defaults", {}))
+        else:
+            b, atoms = self.args_of(call, kwnames=entry.get("kwargs"))
         coq = entry["coq"]
         if entry.get("constkey"):
             k = call.args[0]
@@ -418,6 +434,9 @@ class Fn(object):
             return self.apply(FUNCS[key_n], [], e, [])
         if src in FUNCS:
             return self.apply(FUNCS[src], [], e, [])
+        if isinstance(f, ast.Name) and f.id in self.spec.get("classvars", ()):
+            b, atoms = self.args_of(e)
+            return b, "(mk_entity %s %s)" % (cname(f.id), " ".join(atoms))
         if isinstance(f, ast.Attribute) and isinstance(f.value, ast.Name) and f.value.id in self.dictvars:
             d, keq = cname(f.value.id), self.dictvars[f.value.id]
             b, atoms = self.args_of(e)
@@ -549,6 +568,13 @@ class Fn(object):
         """short-circuit evaluation; `X is not None and ...` unwraps X on the right"""
         is_and = isinstance(e.op, ast.And)
         vals = list(e.values)
+        if not is_and and len(vals) == 2 and isinstance(vals[0], ast.Name) and vals[0].id in self.optvars:
+            # `x or default` on a value that is None or an object (objects are true)
+            x = cname(vals[0].id)
+            rb, ra = self.expr(vals[1])
+            t = self.fresh()
+            comp = "(match %s with Some v_ => Ok v_ | None => %sOk %s end)" % (x, self.bind_text(rb), ra)
+            return [("bind", t, comp)], t
 
         def go(i):
             v = vals[i]
@@ -625,6 +651,10 @@ class Fn(object):
                 m = self.mutating_call(s.value)
                 if m:
                     add(m)
+                v = s.value
+                if (isinstance(v, ast.Call) and isinstance(v.func, ast.Attribute) and v.func.attr == "append"
+                        and isinstance(v.func.value, ast.Attribute) and isinstance(v.func.value.value, ast.Name)):
+                    add(v.func.value.value.id)
                 if isinstance(s.value, ast.Call) and ast.unparse(s.value.func) == "warnings.warn":
                     add("warnings_acc")
             elif isinstance(s, (ast.For, ast.While)):
@@ -802,6 +832,12 @@ class Fn(object):
             b, atoms = self.args_of(v)
             x = cname(mc)
             return self.bind_text(b) + "let %s := %s ++ [%s] in\n" % (x, x, atoms[0]) + cont(defined)
+        if (isinstance(v, ast.Call) and isinstance(v.func, ast.Attribute) and v.func.attr == "append"
+                and isinstance(v.func.value, ast.Attribute) and isinstance(v.func.value.value, ast.Name)
+                and v.func.value.attr == "features"):
+            b, atoms = self.args_of(v)
+            x = cname(v.func.value.value.id)
+            return self.bind_text(b) + "let %s := rec_append_feature %s %s in\n" % (x, x, atoms[0]) + cont(defined)
         if isinstance(v, ast.Call):
             b, a = self.expr(v)
             return self.bind_text(b) + cont(defined)
